@@ -59,7 +59,7 @@ ASSUMPTIONS = [
 
 
 def budget(tier):
-    return int(os.environ.get("VERIF_BUDGET", 0)) or {"quick": 800, "thorough": 12000}[tier]
+    return int(os.environ.get("VERIF_BUDGET", 0)) or {"quick": 1000, "thorough": 12000}[tier]
 
 
 # ================================================================== case generation
@@ -79,7 +79,17 @@ RECIPES = [
     [["unload_dataset", {}]],
     [["add_time_after_dose", {}]],
     [["solve_ode_system", {}]],
+    # start models whose datasets / column types switch on rarely used code paths
+    [["@data", {"variant": "time-hhmm"}]],
+    [["@data", {"variant": "time-hhmm+date"}]],
+    [["@data", {"variant": "time-hhmm+date"}], ["drop_columns", {"column_names": ["DATE"], "mark": True}]],
+    [["@data", {"variant": "time-hhmm+date"}], ["drop_columns", {"column_names": ["DATE"]}]],
+    [["@data", {"variant": "events"}]],
+    [["@data", {"variant": "loq"}]],
+    [["@data", {"variant": "events"}], ["add_peripheral_compartment", {}]],
+    [["set_first_order_absorption", {}], ["@data", {"variant": "time-hhmm"}]],
 ]
+DATA_RECIPES = [i for i, r in enumerate(RECIPES) if any(step[0] == "@data" for step in r)]
 OBJECT_KINDS = ["parameter", "parameters", "columninfo", "datainfo", "frozenmapping", "eststep", "steps", "normal", "joint",
                 "rvs", "compartment", "odes", "statements", "assignment", "model_dataset", "model_iie", "varlevel"]
 
@@ -134,6 +144,15 @@ def corpus_cases():
         {"kind": "call", "fn": "add_time_after_dose", "recipe": 0, "seed": 7},
         {"kind": "call", "fn": "set_dataset", "recipe": 0, "seed": 8},
         {"kind": "call", "fn": "write_csv", "recipe": 0, "seed": 9},
+        # open finding: lag time left on CENTRAL after the dose moved to TRANSIT1
+        {"kind": "call", "fn": "set_transit_compartments", "recipe": 10, "seed": 325059778},
+    ] + [
+        # time/date translation on datasets with NM-TRAN clock strings (with a DATE column, with it marked
+        # dropped, with it removed, without one): the paths of translate_nmtran_time that the plain example never takes
+        {"kind": "call", "fn": fn, "recipe": rec, "seed": 10 + rec}
+        for fn in ("translate_nmtran_time", "add_time_after_dose", "convert_model", "get_doseid", "expand_additional_doses",
+                   "add_admid", "add_cmt", "remove_loq_data", "transform_blq", "set_lloq_data")
+        for rec in DATA_RECIPES
     ]
 
 
@@ -168,12 +187,60 @@ def worker_init():
         _S["effects"] = None
 
 
+def _data_variant(m, variant):
+    """pheno with a dataset / column types that reach code paths the plain example never takes:
+    TIME as NM-TRAN clock strings (datatype nmtran-time) with or without a DATE column (nmtran-date);
+    EVID/MDV/ADDL/II/SS/CMT/ADMID columns typed event/mdv/additional/ii/ss/compartment/admid; BLQ/LLOQ columns."""
+    np = _S["np"]
+    df = m.dataset.copy()
+    di = m.datainfo
+    retype = {}
+    if variant.startswith("time-hhmm"):
+        hours = df["TIME"].astype(float)
+        if variant == "time-hhmm+date":
+            day = (hours // 24).astype(int)
+            df["DATE"] = ["%d/%d/2001" % (1 + d // 28, 1 + d % 28) for d in day]
+            hours = hours % 24
+            retype["DATE"] = dict(type="unknown", datatype="nmtran-date", scale="interval")
+        df["TIME"] = ["%d:%02d" % (int(h), int(round((h - int(h)) * 60)) % 60) for h in hours]
+        retype["TIME"] = dict(datatype="nmtran-time")
+    elif variant == "events":
+        dose = df["AMT"] > 0
+        df["EVID"] = np.where(dose, 1, 0)
+        df["MDV"] = np.where(dose, 1, 0)
+        first = dose & (df.groupby("ID").cumcount() == 0)
+        df["ADDL"] = np.where(first, 2, 0)
+        df["II"] = np.where(first, 12.0, 0.0)
+        df["SS"] = 0
+        df["CMT"] = 1
+        df["ADMID"] = 1
+        retype.update(EVID=dict(type="event"), MDV=dict(type="mdv"), ADDL=dict(type="additional"), II=dict(type="ii"),
+                      SS=dict(type="ss"), CMT=dict(type="compartment"), ADMID=dict(type="admid"))
+    elif variant == "loq":
+        obs = df["AMT"] == 0
+        df["LLOQ"] = 12.0
+        df["BLQ"] = np.where(obs & (df["DV"] < 12.0), 1, 0)
+        retype.update(LLOQ=dict(type="lloq"), BLQ=dict(type="blq"))
+    else:
+        raise ValueError(variant)
+    m = m.replace(dataset=df)
+    di = m.datainfo
+    for col, kw in retype.items():
+        di = di.set_column(di[col].replace(**kw))
+    m = m.replace(datainfo=di)
+    try:
+        m = m.update_source()
+    except Exception:
+        pass
+    return m
+
+
 def _base_model(recipe_idx):
     if recipe_idx not in _S["base"]:
         M = _S["M"]
         m = M.load_example_model("pheno")
         for fn, kw in RECIPES[recipe_idx]:
-            m = getattr(M, fn)(m, **kw)
+            m = _data_variant(m, **kw) if fn == "@data" else getattr(M, fn)(m, **kw)
         _S["base"][recipe_idx] = m
     return _S["base"][recipe_idx]
 
@@ -616,11 +683,14 @@ def encode(x, notes):
         return ["d"] + [[sexp.dumps(encode(k, notes)), sexp.dumps(encode(v, notes))] for k, v in x.items()]
     if isinstance(x, nx.Graph):
         d = nx.to_dict_of_dicts(x)
-        content = sorted((sexp.dumps(encode(u, notes)), sorted((sexp.dumps(encode(v, notes)),
-                                                                sorted((str(k), str(val)) for k, val in attrs.items()))
-                                                               for v, attrs in nbrs.items()))
-                         for u, nbrs in d.items())
-        return ["i", id(x) % (1 << 60), hashlib.sha256(repr(content).encode()).hexdigest()[:24]]
+        nodes = sorted(sexp.dumps(encode(u, notes)) for u in d)
+        edges = sorted((sexp.dumps(encode(u, notes)), sorted((sexp.dumps(encode(v, notes)),
+                                                              sorted((str(k), str(val)) for k, val in attrs.items()))
+                                                             for v, attrs in nbrs.items()))
+                       for u, nbrs in d.items())
+        # "nodes|edges": a hash over frozenset(g.nodes) sees the part before the bar (Lean `partOf`)
+        return ["i", id(x) % (1 << 60), hashlib.sha256(repr(nodes).encode()).hexdigest()[:24] + "|"
+                + hashlib.sha256(repr(edges).encode()).hexdigest()[:24]]
     if isinstance(x, pd.DataFrame):
         return ["f", id(x) % (1 << 60), _digest_frame(x)]
     if type(x).__name__ == "NONMEMModelInternals" or type(x).__name__ == "ModelInternals":
@@ -693,6 +763,14 @@ def _root_cause(a, b, depth=0):
             continue
         if f["hash"] == "orderedItems":
             if list(va.items()) != list(vb.items()):
+                return f"{c}.{f['name']}"
+            continue
+        if f["hash"] == "itemSet":
+            if set(va.items()) != set(vb.items()):
+                return f"{c}.{f['name']}"
+            continue
+        if f["hash"] == "contentPart":
+            if frozenset(va.nodes) != frozenset(vb.nodes):
                 return f"{c}.{f['name']}"
             continue
         ha, hb = _safe_hash(va), _safe_hash(vb)
